@@ -14,6 +14,7 @@ from props import _design
 
 TITLE = "distinct sequences, min(requested, available) of them"
 LEVEL = "proof"
+DOMAINS = ['Design']
 STRATS = ("IterateSATGen", "RandomGen", "IterateGen")
 
 
